@@ -554,6 +554,6 @@ package container
 //@ func container.Init props C06 C16
 //@   arith int
 //@   assume P.st == 0 && WA.tokens == 0
-//@   assigns FD.cloexec, D.entries, FC.closed, P.st, S._all, FD._all, W._all, K._all, O._all, R._all, U._all, WA._all, FC._all
+//@   assigns FD.cloexec, D.entries, FC.closed, P.st, S._all, FD._all, W._all, K._all, O._all, R._all, U._all, WA._all, FC._all, L._all
 //@   ensures @C16 err == nil
 //@   callsite unixsocket.NewSocket: assert @C06 fd == 3 && forall k int :: 0 <= k && k < len(D.entries) ==> FD.cloexec[atoi(dename(D.entries[k]))]
